@@ -28,3 +28,11 @@ Lemma identity_by_group_type :
   account_key_group_types = ["GroupType_GroupTypeAccount"; "GroupType_GroupTypeContact"] /\
   derived_key_group_types = ["GroupType_GroupTypeMultiMember"].
 Proof. split; reflexivity. Qed.
+
+(* the service joins by invitation through GroupJoin alone and writes nothing to the secret store
+   (PutGroup keeps the FIRST group written for an identifier: an unchecked group stored before the
+   check would shadow the genuine one); creating a group stores it only after GroupJoin succeeded *)
+Lemma service_checks_before_it_stores :
+  service_join_steps = [("accountGroup.MetadataStore().GroupJoin", true)] /\
+  service_create_steps = [("accountGroup.MetadataStore().GroupJoin", true); ("s.secretStore.PutGroup", true)].
+Proof. split; reflexivity. Qed.
